@@ -248,6 +248,9 @@ func (c *FnCtx) Discharge(sc *SolverCfg) {
 	var order []string
 	for _, o := range c.Obls {
 		g := o.Kind + ":" + o.Label
+		if o.Quick {
+			g = "quick!" + o.Name + "@" + o.Path
+		}
 		if _, ok := groups[g]; !ok {
 			order = append(order, g)
 		}
@@ -266,6 +269,20 @@ func (c *FnCtx) Discharge(sc *SolverCfg) {
 	solveOne := func(o *Obligation) {
 		f := nextFile(o.Kind + "." + o.Label)
 		os.WriteFile(f, []byte(c.smtFor([]*Obligation{o}, true)), 0o644)
+		if o.Quick {
+			short := *sc
+			if short.TimeoutS > 3 {
+				short.TimeoutS = 3
+			}
+			r := short.race(f)
+			o.Verdict, o.Solver, o.TimeS = r.verdict, r.solver, r.time
+			if r.verdict != "unsat" {
+				o.Model, o.File = r.out, f
+			} else {
+				os.Remove(f)
+			}
+			return
+		}
 		r := sc.race(f)
 		o.Verdict, o.Solver, o.TimeS = r.verdict, r.solver, r.time
 		if r.verdict != "unsat" {
@@ -336,4 +353,49 @@ func (c *FnCtx) Discharge(sc *SolverCfg) {
 		}(g, obs)
 	}
 	wg.Wait()
+}
+
+// SplitConj splits a top-level (and ...) into its conjuncts.
+func SplitConj(t Term) []Term {
+	s := t.S
+	if !strings.HasPrefix(s, "(and ") {
+		return []Term{t}
+	}
+	body := s[5 : len(s)-1]
+	var out []Term
+	depth, start := 0, 0
+	for i := 0; i < len(body); i++ {
+		switch body[i] {
+		case '(':
+			depth++
+		case ')':
+			depth--
+		case ' ':
+			if depth == 0 {
+				if i > start {
+					out = append(out, Term{body[start:i], SBool})
+				}
+				start = i + 1
+			}
+		}
+	}
+	if start < len(body) {
+		out = append(out, Term{body[start:], SBool})
+	}
+	return out
+}
+
+// Explain re-checks every top-level conjunct of a failed obligation's goal.
+func (c *FnCtx) Explain(sc *SolverCfg, o *Obligation) []string {
+	var out []string
+	for i, g := range SplitConj(o.Goal) {
+		sub := &Obligation{PC: o.PC, Goal: g}
+		f := filepath.Join(sc.Dir, fmt.Sprintf("explain.%d.smt2", i))
+		os.WriteFile(f, []byte(c.smtFor([]*Obligation{sub}, false)), 0o644)
+		r := sc.race(f)
+		if r.verdict != "unsat" {
+			out = append(out, fmt.Sprintf("conjunct %d %s: %s", i, r.verdict, truncate(g.S, 300)))
+		}
+	}
+	return out
 }
